@@ -22,7 +22,7 @@ ASSUMPTIONS = ["strict reader mc/rp66.py", "reference model mc/model.py", "an ex
                "for out-of-domain windows a successful write must contain exactly rows [max(from,0), min(to,rows))"]
 
 FAMILIES = ['rows', 'dtype', 'ndim', 'missing', 'longtext', 'nonascii', 'intrange', 'structure', 'window', 'empty',
-            'unusual', 'fraction']
+            'unusual', 'fraction', 'badsource', 'mixed']
 
 
 def shards(tier):
@@ -148,6 +148,23 @@ def cases(shard, tier):
                      'dimension-as-int', 'bool-status', 'name-with-spaces', 'chunk-larger-than-rows'):
             for src in ('inline', 'dict', 'struct'):
                 yield {'family': fam, 'ctx': ctx, 'what': what, 'src': src, 'must': False}
+    elif fam == 'badsource':
+        # things handed to write(data=...) that are no data source (or hold something that is no array); with and without
+        # arrays given at channel creation.  A plain list in place of an array may be refused or taken for the array.
+        for how in ('int', 'txt-path', 'bytes-path', 'plain-ndarray', 'struct-2d', 'list-of-arrays', 'tuple-pairs',
+                    'dict-list-value', 'dict-none-value', 'dict-int-key', 'dict-extra-none', 'dict-extra-list',
+                    'dict-scalar-value', 'h5-is-a-directory', 'h5-group-for-dataset'):
+            for inline in (False, True):
+                yield {'family': fam, 'ctx': ctx, 'how': how, 'inline': inline,
+                       'must': how not in ('dict-list-value', 'dict-extra-none', 'dict-extra-list', 'dict-int-key')}
+    elif fam == 'mixed':
+        # value lists whose elements are of different kinds, for attributes that take numbers or text: refused, or
+        # written so that every element decodes to what was given (a number stays a number); texts that are plain
+        # decimal numerals are converted to numbers by design and stay outside the alphabet, as in mc/lattice.py
+        for kind, kwname in (('axis', 'coordinates'), ('parameter', 'values'), ('computation', 'values')):
+            for v in ([1, 'a'], ['a', 1], [1.5, 'b'], [1, 2.5], [2.5, 1], [True, 2], [1, True], [1, 2, 'x'],
+                      [7, {'$f': '7ff0000000000000'}], [0, {'$f': '8000000000000000'}]):
+                yield {'family': fam, 'ctx': ctx, 'kind': kind, 'kwname': kwname, 'v': v, 'must': False}
     elif fam == 'empty':
         for kind, kw in (('axis', {'coordinates': []}), ('parameter', {'values': []}), ('parameter', {'zones': []}),
                          ('comment', {'text': []}), ('long_name', {'conditions': []}),
@@ -346,6 +363,43 @@ def make_spec(c):
         elif w == 'chunk-larger-than-rows':
             sp['write']['input_chunk_size'] = 1000
         return sp
+    if fam == 'badsource':
+        sp = base(ctx, src='inline' if c['inline'] else 'dict')
+        good = {'CHAN-A': S.arr_spec('float64', [3], [0x3FF0000000000000 + (k << 48) for k in range(3)]),
+                'CHAN-B': S.arr_spec('uint16', [3, 2], list(range(1, 7)))}
+        how = c['how']
+        if how.startswith('dict-'):
+            d = dict(good)
+            if how == 'dict-list-value':
+                d['CHAN-A'] = {'$tolist': good['CHAN-A']}
+            elif how == 'dict-none-value':
+                d['CHAN-A'] = None
+            elif how == 'dict-scalar-value':
+                d['CHAN-A'] = 1.5
+            elif how == 'dict-extra-none':
+                d['UNUSED'] = None
+            elif how == 'dict-extra-list':
+                d['UNUSED'] = [1, 2, 3]
+            sp['write']['data'] = {'$datadict': d}
+            if how == 'dict-int-key':
+                sp['write']['data']['intkey'] = True
+        elif how.startswith('h5-'):
+            sp['write']['data'] = {'$bad': how}
+        else:
+            sp['write']['data'] = {'$bad': how}
+        return sp
+    if fam == 'mixed':
+        sp = base('rich' + ('@' + ctx.split('@')[1] if '@' in ctx else ''))
+        if ctx.startswith('minimal'):
+            sp['sul']['max_record_length'] = 128 if '@' not in ctx else 40
+        kw = {c['kwname']: copy.deepcopy(c['v'])}
+        if c['kind'] in ('parameter', 'computation'):
+            kw['zones'] = [{'$ref': 'Z'}] * 1
+            sp['ops'].append(S.op_add('zone', 'Z2', 'ZONE-2'))
+            sp['ops'].append(S.op_add('zone', 'Z3', 'ZONE-3'))
+            kw['zones'] = [{'$ref': z} for z in ('Z', 'Z2', 'Z3')][:len(c['v'])]
+        sp['ops'].append(S.op_add(c['kind'], 'MX', 'MIXED-ONE', **kw))
+        return sp
     if fam == 'empty':
         sp = base('rich' + ('@' + ctx.split('@')[1] if '@' in ctx else ''))
         if ctx.startswith('minimal'):
@@ -376,6 +430,15 @@ def full_check(sp, data, c):
     """Strict parse + grammar + full model comparison."""
     errs = []
     phys = R.parse_physical(data)
+    if c['family'] == 'badsource':
+        sp = copy.deepcopy(sp)
+        d = sp['write']['data']['$datadict']
+        sp['write']['data'].pop('intkey', None)
+        for k in list(d):
+            if isinstance(d[k], dict) and '$tolist' in d[k]:
+                d[k] = d[k]['$tolist']
+            elif k == 'UNUSED':
+                del d[k]
     if not sp['ops']:
         return [('records_in_empty_file', f"{len(phys.records)} records")] if phys.records else []
     errs += c04.grammar_errors(data, sp)
@@ -421,6 +484,10 @@ def aspect(c):
         return c['kind'] + '.' + next(iter(c['kw']))
     if f == 'unusual':
         return c['what']
+    if f == 'badsource':
+        return c['how']
+    if f == 'mixed':
+        return c['kind'] + '.' + '+'.join(type(x).__name__ for x in c['v'])
     return ''
 
 
